@@ -3,6 +3,7 @@ import STProofs.EnergyGrad
 import STProofs.TimeMap
 import STProofs.Layout
 import STProofs.QuadDual
+import STProofs.Assemble
 import STProofs.QuinticUnique
 import STProofs.SepticUnique
 import STProofs.CubicEnergyGrad
@@ -23,10 +24,14 @@ quadrature steps:
   following the documented protocol (`RunOK`), the derivative of the total trapezoid cost along any tangent equals the
   pairing with the accumulators `gdC`, `gdT ⊕ suffixAdd expl` (and `Σ expl` for the start time) that `evaluate` hands to
   `propagateGrad` (`quadStep_dual`, `quadSegment_dual`, `starts_du`, `intAcc_eq_range`);
-* energy term: the analytic energy gradients are the total derivatives (C06: `*_energy_grad_exact`).
+* energy term: the analytic energy gradients are the total derivatives (C06: `*_energy_grad_exact`);
+* decision vector ↔ decoded quantities: **`Assemble.assemble_adjoint`** — gradient assembly (`backward` of the time map,
+  `backwardGrad` of the spatial map, scatter into the packed layout slices) is the adjoint of decoding, for every N, order,
+  dimension, flag set and all maps whose `backward`/`backwardGrad` are the transposed derivatives of `toTime`/`toPhysical`
+  (`MapsOK`).
 
-NOT proved as one statement: the composition of these links for the D-dimensional `evaluate` (the column stacking of the
-1-D adjoint theorems and the scatter/gather of the layout as a single dual-number identity).  That composition is decided
+NOT proved as one statement: the composition of these links for the D-dimensional `evaluate` (it additionally needs the
+column stacking of the 1-D adjoint theorems, C13, written as one dual-number identity).  That composition is decided
 on every run by the exact dual-number oracle: the model's gradient equals the dual part of the model's cost on every
 generated case as an exact rational identity, and the C++ agrees within tolerance.
 -/
